@@ -32,6 +32,13 @@ TDml == Is("stmt") /\ Ev.q.k \in {"insert", "update", "delete"} /\ Step
         /\ tabs' = (IF Ok(Ev.out) THEN Dml(Ev.q, Tx(Ev)).tabs ELSE tabs)
         /\ UNCHANGED <<committed, snap, sess>>
 
+\* execute_batch: DML statements applied in order inside one transaction (recorded as begin / batch / commit|rollback)
+TBatch == Is("batch") /\ Step
+          /\ LET r == BatchOn(tabs, Ev.qs, Tx(Ev)) IN
+             /\ (IF r.ok THEN Ok(Ev.out) ELSE Ev.out.k = "err") = TRUE
+             /\ tabs' = r.tabs      \* the prefix that ran stays in the store; the rollback that follows makes it invisible
+          /\ UNCHANGED <<committed, snap, sess>>
+
 TCreate == Is("stmt") /\ Ev.q.k = "create" /\ Step
            /\ (IF CreateOk(Tx(Ev), Ev.q.tbl) THEN Ok(Ev.out) ELSE Ev.out.k = "err") = TRUE
            /\ tabs' = (IF Ok(Ev.out) THEN Append(tabs, NewTab(Ev.q.tbl, Ev.q.cols, Ev.q.uniq, Tx(Ev))) ELSE tabs)
@@ -44,13 +51,13 @@ TDrop == Is("stmt") /\ Ev.q.k = "drop" /\ Step
 
 \* CREATE UNIQUE INDEX: accepted iff the visible rows satisfy it; from then on it is a constraint of the table
 TIndex == Is("stmt") /\ Ev.q.k = "index" /\ Step
-          /\ LET t == Tx(Ev) IN
-             IF ~HasTab(t, Ev.q.tbl) THEN Ev.out.k = "err" /\ UNCHANGED tabs
-             ELSE LET i == TheTab(t, Ev.q.tbl) o == tabs[i]
-                      dup == BreaksUnique([o EXCEPT !.uniq = <<Ev.q.cols>>], <<>>, TabRows(t, o))
-                  IN IF dup THEN Ev.out.k = "err" /\ UNCHANGED tabs
-                     ELSE (Ok(Ev.out) = TRUE) /\ tabs' = [tabs EXCEPT ![i].uniq = Append(@, Ev.q.cols)]
           /\ UNCHANGED <<committed, snap, sess>>
+          /\ LET t == Tx(Ev)
+                 known == HasTab(t, Ev.q.tbl)
+                 i == IF known THEN TheTab(t, Ev.q.tbl) ELSE 0
+                 dup == IF known THEN BreaksUnique([tabs[i] EXCEPT !.uniq = <<Ev.q.cols>>], <<>>, TabRows(t, tabs[i])) ELSE TRUE
+             IN /\ (IF dup THEN Ev.out.k = "err" ELSE Ok(Ev.out)) = TRUE
+                /\ tabs' = (IF dup THEN tabs ELSE [tabs EXCEPT ![i].uniq = Append(@, Ev.q.cols)])
 
 \* a statement the specification has no semantics for (fuzzing, C16): it may succeed only if it cannot change
 \* anything (flagged ro by the driver) - otherwise it must fail; either way the state stays as it is
@@ -59,7 +66,7 @@ TOpaque == Is("stmt") /\ Ev.q.k = "opaque" /\ Step
            /\ UNCHANGED dbvars
 
 \* ideal: first committer wins; the code never validates write sets (finding NoWriteSetValidation)
-Wrote(t, r) == t \in r.del \/ \E i \in 1..Len(r.vers) : r.vers[i].by = t /\ (i < Len(r.vers) \/ r.cr = t)
+Wrote(t, r) == IF t \in r.del THEN TRUE ELSE \E i \in 1..(Len(r.vers) - 1) : r.vers[i].by = t   \* deletes and updates (not the creating version)
 Conflict(t) == \E i \in 1..Len(tabs) : \E j \in 1..Len(tabs[i].rows) :
                  /\ Wrote(t, tabs[i].rows[j])
                  /\ \E u \in committed : u # t /\ u \notin snap[t] /\ Wrote(u, tabs[i].rows[j]) /\ tabs[i].rows[j].cr # u
@@ -78,7 +85,7 @@ TReopen == Is("reopen") /\ Step /\ (Ok(Ev.out) = TRUE)
            /\ snap' = <<>> /\ sess' = <<>> /\ UNCHANGED <<tabs, committed>>
 TNoop   == (Is("flush") \/ Is("analyze")) /\ Step /\ (Ok(Ev.out) = TRUE) /\ UNCHANGED dbvars
 
-TNext == TReset \/ TBegin \/ TSelect \/ TDml \/ TCreate \/ TDrop \/ TIndex \/ TOpaque
+TNext == TReset \/ TBegin \/ TSelect \/ TDml \/ TBatch \/ TCreate \/ TDrop \/ TIndex \/ TOpaque
          \/ TCommit \/ TRollback \/ TVacuum \/ TReopen \/ TNoop
 TSpec == TInit /\ [][TNext]_tvars
 
